@@ -38,7 +38,7 @@ Absent == Trace[1].pre          \* the first event is a Reset whose pre/post are
 NoRow == [ row |-> -1 ]
 
 NoRead == [ valid |-> FALSE, o |-> Absent ]
-NoObs  == [ valid |-> FALSE, present |-> FALSE, passes |-> FALSE, ctrl |-> FALSE ]
+NoObs  == [ valid |-> FALSE, present |-> FALSE, passes |-> FALSE, ctrl |-> FALSE, probe |-> "None" ]
 
 IdlePass == [ active |-> FALSE, actor |-> "", target |-> "", oid |-> "", ouid |-> "", strategy |-> "native",
               forced |-> FALSE, hasSnap |-> FALSE, snap |-> Absent, orev |-> 0, prev |-> {}, prevSeen |-> {},
@@ -124,13 +124,13 @@ Rollout(pr)      == pr.hasSnap /\ ~Teardown(pr)
 IsCtrl(pr, o)  == IsController(pr.strategy, pr.oid, pr.ouid, o)
 IsOwn(pr, o)   == IsOwner(pr.strategy, pr.oid, pr.ouid, o)
 
-ObsOf(pr, o) == [ valid |-> TRUE, present |-> o.exists, passes |-> Passes(o), ctrl |-> IsCtrl(pr, o) ]
+ObsOf(pr, o) == [ valid |-> TRUE, present |-> o.exists, passes |-> Passes(o), ctrl |-> IsCtrl(pr, o), probe |-> o.probe ]
 
 \* delegated phase: the phase object as read by the ObjectSet pass
 RemoteObs(o) == [ valid |-> TRUE, present |-> o.exists,
                   passes |-> o.exists /\ HasCond(o.cr, "Available") /\ CondOf(o.cr, "Available").status = "True"
                                       /\ CondOf(o.cr, "Available").cur,
-                  ctrl |-> TRUE ]
+                  ctrl |-> TRUE, probe |-> "None" ]
 
 \* the declared previous revisions the pass decides with: those it looked up as it saw them; one it did NOT look up
 \* before judging an object is taken as it is (the statement speaks of the DECLARED previous revisions - a pass
@@ -625,6 +625,23 @@ Inv_C05_Orphan ==
 (* C06 status never claims more than observed *)
 
 AllPhasesOK(pr) == \A j \in 1..NPhases(pr) : AllOK(pr, j)
+
+\* Condition mappings (ObjectSetObject.conditionMappings; the harness maps the Widgets' Available condition): the status
+\* a rollout pass writes carries, for every mapped object the pass reconciled, the object's condition under the
+\* destination type with the status the pass last saw (read or response of its own patch) - and no other non-standard
+\* condition: one left from an earlier pass whose source is gone or was not looked at is removed, not kept.
+StdCondTypes == {"Available", "Succeeded", "InTransition", "Paused", "Archived", "Progressing", "Unpacked", "Invalid"}
+MapOf(pr, k) ==
+    LET hits == { <<j, i>> \in UNION { {j} \X DOMAIN pr.snap.cr.phases[j].keys : j \in 1..NPhases(pr) } : pr.snap.cr.phases[j].keys[i] = k }
+    IN IF hits = {} THEN "" ELSE LET h == CHOOSE x \in hits : TRUE IN pr.snap.cr.phases[h[1]].maps[h[2]]
+MappedStatus(probe) == IF probe = "NotReady" THEN "False" ELSE "True"     \* Ready / Stale: Available=True
+Inv_C06_MappedConditions ==
+    (StatusEv /\ W.res = "ok" /\ Rollout(PR) /\ ~SnapPaused(PR) /\ ~PR.apiErr /\ ~(\E j \in 1..NPhases(PR) : IsDelegated(PR, j)))
+    => LET body == W.args.body.cr
+           got  == { <<body.conds[i].type, body.conds[i].status>> : i \in { x \in DOMAIN body.conds : body.conds[x].type \notin StdCondTypes } }
+           src  == { k \in ListedObjKeys(PR) : /\ MapOf(PR, k) # "" /\ PR.obs[k].valid /\ PR.obs[k].present
+                                               /\ PR.obs[k].probe # "None" /\ ~IsRefusal(PR.verdict[k]) }
+       IN got = { <<MapOf(PR, k), MappedStatus(PR.obs[k].probe)>> : k \in src }
 
 \* keys the pass saw under the owner's control (for delegated phases: as reported by the phase read in this pass)
 SeenControlled(pr) ==
